@@ -46,6 +46,41 @@ theorem range_axis_accept {n f e : Int} (hf : 0 ≤ f) (hfe : f < e) (he : e ≤
   have h3 : sliceLen f e 1 = e - f := by simp [sliceLen, hfe]
   simp only [axisOfItem, optItemSlice, itemSlice, c, bind, Except.bind, pure, Except.pure, axisOfSlice, h1, h2, h3]
 
+/-! ## index items of a foreign type -/
+
+theorem optItemSlice_foreign (n : Int) : optItemSlice (some Item.foreign) n = .error .type := rfl
+
+/-- an accepted index holds ints and slices only: any item of another type (None, Ellipsis, numpy integer, float, list …)
+makes `__getitem__` raise (TypeError at that item, unless an earlier item is refused first) -/
+theorem getitemG_no_foreign (sz : AxMap → Int) {g : Geom} {items : List Item} {r : GStep}
+    (h : getitemG sz g items = .ok r) : ∀ it ∈ items, it ≠ Item.foreign := by
+  simp only [getitemG] at h
+  obtain ⟨⟨m0, m1, m2⟩, hm, _⟩ := bind_ok.mp h
+  obtain ⟨hl, s0, s1, s2, e0, e1, e2, _⟩ := getitemMaps_ok hm
+  intro it hit hf
+  subst hf
+  match items, hl, hit with
+  | [a], _, hit =>
+    simp only [List.mem_singleton] at hit; subst hit
+    simp [optItemSlice_foreign] at e0
+  | [a, b], _, hit =>
+    simp only [List.mem_cons, List.not_mem_nil, or_false] at hit
+    rcases hit with rfl | rfl
+    · simp [optItemSlice_foreign] at e0
+    · simp [optItemSlice_foreign] at e1
+  | [a, b, c], _, hit =>
+    simp only [List.mem_cons, List.not_mem_nil, or_false] at hit
+    rcases hit with rfl | rfl | rfl
+    · simp [optItemSlice_foreign] at e0
+    · simp [optItemSlice_foreign] at e1
+    · simp [optItemSlice_foreign] at e2
+
+/-- a foreign item in first place is refused with TypeError whatever follows (up to three items) -/
+theorem getitemG_foreign_first (sz : AxMap → Int) (g : Geom) (rest : List Item) (hl : rest.length ≤ 2) :
+    getitemG sz g (Item.foreign :: rest) = .error .type := by
+  have : ¬ ((Item.foreign :: rest).length > 3) := by simp only [List.length_cons]; omega
+  simp only [getitemG, getitemMaps, this, if_false, List.getElem?_cons_zero, optItemSlice_foreign, bind, Except.bind]
+
 /-! ## inverse pairs -/
 
 theorem I3.ext' {a b : I3} (h0 : a.i0 = b.i0) (h1 : a.i1 = b.i1) (h2 : a.i2 = b.i2) : a = b := by
